@@ -18,11 +18,27 @@ GEN_BENCH = ["tiny-gen", "tiny-gen-rgoal", "small-gen", "small-gen-rgoal",
 _TMP = None
 
 
+_TMP_OWNER = None
+
+
 def tmpdir():
-    global _TMP
-    if _TMP is None or not os.path.isdir(_TMP):
+    """Run-private scratch directory of this process (removed by
+    cleanup_tmp, which every forked worker calls before it exits)."""
+    global _TMP, _TMP_OWNER
+    if _TMP is None or _TMP_OWNER != os.getpid() or not os.path.isdir(_TMP):
         _TMP = tempfile.mkdtemp(prefix="dsim-")
+        _TMP_OWNER = os.getpid()
+        import atexit
+        atexit.register(cleanup_tmp)
     return _TMP
+
+
+def cleanup_tmp():
+    global _TMP
+    if _TMP is not None and _TMP_OWNER == os.getpid():
+        import shutil
+        shutil.rmtree(_TMP, ignore_errors=True)
+        _TMP = None
 
 
 def shipped_text(name):
